@@ -20,7 +20,8 @@ RULE = ("E2: breadth-first search over histories of a real Bec2File (state copie
         "descriptors, comments, auth blocks. After every transition the real object must agree with the reference state: after SetConfig exactly "
         "one configuration component, last, decoding to the latest configuration, all others untouched in order; derived comments = reference "
         "function of the latest configuration; derived auth blocks as stated; never two blocks of one kind; a second, untouched file object of the same process stays empty."
-        " Configuration E carries BOTH identifiers with different versions (the update block takes the project settings' version).")
+        " Configuration E carries BOTH identifiers with different versions (the update block takes the project settings' version)."
+        " Operation ('setcfg-refused', which): an update the encoder refuses must leave the file exactly as it was.")
 ASSUMPTIONS = [
     "the caller keeps using the same configuration dictionaries for all operations of a history (as the appnotes do); the reference always uses pristine copies",
     "for derivation on a file that already has blocks only 'requested block present, update block as stated when both exist, one block per kind' is checked",
